@@ -417,11 +417,6 @@ func (fv *FV) applyTrace(st *State, rf []string, f Term, args []Term, pos token.
 // ---------------------------------------------------------------------------
 // not yet supported (later stages)
 
-func (fv *FV) execRangeMap(st *State, x *ast.RangeStmt, label string, ord int, ls *LoopSpec, keyObj, valObj types.Object, mt *types.Map) *State {
-	fv.fail(x.Pos(), "range over map")
-	return nil
-}
-
 func (fv *FV) execRangeFunc(st *State, x *ast.RangeStmt, label string, ord int, ls *LoopSpec, keyObj, valObj types.Object) *State {
 	fv.fail(x.Pos(), "range over func")
 	return nil
@@ -431,30 +426,67 @@ func (fv *FV) ifaceCallEffects(eff *loopEffects, callee *types.Func, recvExpr as
 	return false
 }
 
-func (fv *FV) mapKeys(mt *types.Map) []string { return nil }
-func (fv *FV) mapTargets(m Term) []modTarget  { fv.sfail("maps not supported yet"); return nil }
-func (fv *FV) mapMake(st *State, t types.Type) Term {
-	fv.fail(token.NoPos, "maps not supported yet")
-	return Term{}
+func (fv *FV) specSetOps(env *Env, c *SCall) (Term, bool) {
+	switch c.Fn {
+	case "dom":
+		// dom(m): the key set of a Go map, as an array K -> Bool (nil map: empty)
+		if len(c.Args) != 1 {
+			fv.sfail("dom(m)")
+		}
+		m := fv.spec(env, c.Args[0])
+		mt, ok := underMap(m.T)
+		if !ok {
+			fv.sfail("dom() of a non-map")
+		}
+		mc := fv.mapInfo(mt)
+		return Term{S: fv.mapDomOf(env.st, m, mc), Sort: mc.domS, T: &specType{sort: mc.domS, elem: types.Typ[types.Bool], key: mc.kt}}, true
+	case "deref":
+		if len(c.Args) != 1 {
+			fv.sfail("deref(p)")
+		}
+		p := fv.spec(env, c.Args[0])
+		if p.Sort != "ElemPtr" {
+			return p, true // already a value (a pointer-receiver method called on an addressable variable)
+		}
+		return fv.derefRead(env.st, p, token.NoPos), true
+	case "emptyset":
+		if len(c.Args) != 1 {
+			fv.sfail("emptyset(m)")
+		}
+		m := fv.spec(env, c.Args[0])
+		if st, ok := m.T.(*specType); ok && st.key != nil {
+			return Term{S: fv.emptyDom(fv.sortOf(st.key)), Sort: m.Sort, T: m.T}, true
+		}
+		fv.sfail("emptyset() needs a set-valued argument")
+	case "setadd":
+		if len(c.Args) != 2 {
+			fv.sfail("setadd(s, x)")
+		}
+		a := fv.spec(env, c.Args[0])
+		x := fv.spec(env, c.Args[1])
+		is, _ := arraySorts(a.Sort)
+		x, _ = fv.coerce(x, Term{Sort: is})
+		return Term{S: sto(a.S, x.S, "true"), Sort: a.Sort, T: a.T}, true
+	case "setdel":
+		if len(c.Args) != 2 {
+			fv.sfail("setdel(s, x)")
+		}
+		a := fv.spec(env, c.Args[0])
+		x := fv.spec(env, c.Args[1])
+		is, _ := arraySorts(a.Sort)
+		x, _ = fv.coerce(x, Term{Sort: is})
+		return Term{S: sto(a.S, x.S, "false"), Sort: a.Sort, T: a.T}, true
+	case "card":
+		if len(c.Args) != 1 {
+			fv.sfail("card(s)")
+		}
+		a := fv.spec(env, c.Args[0])
+		is, _ := arraySorts(a.Sort)
+		fv.cardFacts(env.st, is, a.S)
+		return Term{S: fv.cardOf(is, a.S), Sort: sInt, T: types.Typ[types.Int]}, true
+	}
+	return Term{}, false
 }
-func (fv *FV) mapRead(st *State, m, k Term, mt *types.Map) Term {
-	fv.fail(token.NoPos, "maps not supported yet")
-	return Term{}
-}
-func (fv *FV) mapHas(st *State, m, k Term, mt *types.Map) string {
-	fv.fail(token.NoPos, "maps not supported yet")
-	return ""
-}
-func (fv *FV) mapLen(st *State, m Term) Term {
-	fv.fail(token.NoPos, "maps not supported yet")
-	return Term{}
-}
-func (fv *FV) mapWrite(st *State, m, k, v Term, mt *types.Map, pos token.Pos) {
-	fv.fail(pos, "maps not supported yet")
-}
-func (fv *FV) mapDelete(st *State, m, k Term, pos token.Pos) { fv.fail(pos, "maps not supported yet") }
-func (fv *FV) mapClear(st *State, m Term, pos token.Pos)     { fv.fail(pos, "maps not supported yet") }
-func (fv *FV) specSetOps(env *Env, c *SCall) (Term, bool)     { return Term{}, false }
 func (fv *FV) load64(st *State, s Term, i string) Term {
 	fv.sfail("load64 not supported yet")
 	return Term{}
